@@ -181,13 +181,15 @@ def max_level(ops):
     return max(lv) if lv else 2   # MIR_gen_init default
 
 
-def check_e2e(impl, path, ops, ref):
+def check_e2e(impl, path, ops, ref, jmpi=True):
     """None if the run keeps every function intact and behaves like the reference, else a description.
-    When some function was generated at -O2/-O3, what the *machine code* does is C01's business (the optimiser
-    still miscompiles a share of these programs): then only the MIR-level observations decide -- text, instruction
-    identity, vars, original_insns, lref fields, addresses, machine_code stability, MIR_gen's return value."""
+    jmpi: the program takes label addresses (laddr / lref + jmpi).  For those, when some function was generated at
+    -O2/-O3, what the *machine code* does is C01's business (known findings there: the optimiser still dies on or
+    miscompiles ~10% of such programs): then only the MIR-level observations decide -- text, instruction identity,
+    vars, original_insns, lref fields, addresses, machine_code stability, MIR_gen's return value.  Programs without
+    label addresses are compared with the reference at every level."""
     o = run_g(impl, path, ops)
-    if max_level(ops) >= 2 and 'CRASH:run' in o:
+    if jmpi and max_level(ops) >= 2 and 'CRASH:run' in o:
         return 'SKIP:optimised-code-crashed'
     if 'CRASH:gen:' in o:
         # The code generator itself died while generating.  If it also dies generating that function on its own
@@ -224,7 +226,7 @@ def check_e2e(impl, path, ops, ref):
     if last != rlast:
         diff = [k for k in last if last[k] != rlast.get(k)]
         return 'text of functions differs from the never-generated reference: %s' % diff[:5]
-    if max_level(ops) >= 2:
+    if jmpi and max_level(ops) >= 2:
         return None
     if res != rres:
         return 'results differ from the interpreter-only reference: %s vs %s' % (res, rres)
@@ -233,7 +235,7 @@ def check_e2e(impl, path, ops, ref):
     return None
 
 
-def shrink_ops(impl, path, ops, ref):
+def shrink_ops(impl, path, ops, ref, jmpi=True):
     keep_kinds = ('load', 'link')
 
     def fails(sub):
@@ -249,7 +251,7 @@ def shrink_ops(impl, path, ops, ref):
             elif k in ('load', 'call', 'icall'):
                 rr.append(o)
         rr.append('snap')
-        w = check_e2e(impl, path, full + ['snap'], rr)
+        w = check_e2e(impl, path, full + ['snap'], rr, jmpi)
         return w is not None and not w.startswith('SKIP:')
     idx = [i for i, o in enumerate(ops) if o.split()[0] not in keep_kinds]
     keep = vlib.shrink_list(idx, lambda s: fails(set(s)), max_steps=80)
@@ -272,12 +274,13 @@ def run(chk):
         'working list func->insns, registers it creates, and the current label fields of lrefs']
     found = 0
     rng = chk.rng('c16')
-    nprog = 40 if quick else 250
+    nprog = 90 if quick else 400
     nproto = 10 if quick else 30
     ne2e = 3 if quick else 6
     for k in range(nprog):
-        # one program in three has no lref data: its functions may be interpreted and generated in any order
-        prog = G.gen_program(rng, feats=FEATS - {'lref'} if k % 3 == 2 else FEATS)
+        # two programs in three have no lref data: their functions may be interpreted and generated in any order;
+        # one in three has no label addresses at all: results are compared with the reference at -O2/-O3 too
+        prog = G.gen_program(rng, feats=FEATS - {'lref', 'laddr'} if k % 3 == 2 else (FEATS - {'lref'} if k % 3 == 1 else FEATS))
         path = write_prog(prog['text'], 'p')
         chk.dist('free_mix_program', not any(f['lref'] for f in prog['funcs']))
         for ft in prog['features']:
@@ -326,18 +329,19 @@ def run(chk):
                 chk.dist('e2e_ops', ' '.join(o.split()[:2]) if o.split()[0] in ('link', 'opt') else o.split()[0])
             if k == 0:
                 chk.sample('G | ' + ' ; '.join(ops)[:300])
-            why = check_e2e(impl, path, ops, ref)
+            jmpi = any(ft in prog['features'] for ft in ('laddr', 'lref', 'lref_diff'))
+            why = check_e2e(impl, path, ops, ref, jmpi)
             if why and why.startswith('SKIP:'):
                 chk.dist('skipped', why.split(':')[-1])
                 why = None
             if why:
                 found += 1
-                ops2, ref2 = shrink_ops(impl, path, ops, ref)
-                why2 = check_e2e(impl, path, ops2, ref2) or why
-                if check_e2e(impl, path, ops2, ref2) is None:
+                ops2, ref2 = shrink_ops(impl, path, ops, ref, jmpi)
+                why2 = check_e2e(impl, path, ops2, ref2, jmpi) or why
+                if check_e2e(impl, path, ops2, ref2, jmpi) is None:
                     ops2, ref2 = ops, ref
                 chk.finding('e2e:' + hashlib.sha1((prog['text'] + ';'.join(ops2)).encode()).hexdigest()[:12],
-                            dict(kind='e2e', text=prog['text'], ops=ops2, ref=ref2, what=why2),
+                            dict(kind='e2e', text=prog['text'], ops=ops2, ref=ref2, what=why2, jmpi=jmpi),
                             'generation changed the program: %s  [ops: %s]' % (why2[:300], ' ; '.join(ops2)[:400]))
                 break
         if found >= 2:
@@ -360,7 +364,7 @@ def replay(chk, path):
         print('P %s %s %d %d' % (p, rp['func'], rp['seed'], rp['nedits']))
         print(why or 'agree')
         return 1 if why else 0
-    why = check_e2e(impl, p, rp['ops'], rp['ref'])
+    why = check_e2e(impl, p, rp['ops'], rp['ref'], rp.get('jmpi', True))
     print('G %s | %s' % (p, ' ; '.join(rp['ops'])))
     print(why or 'agree')
     return 1 if why else 0
